@@ -118,6 +118,7 @@ def u_manager_advance(ip):
         mgr = ip.call(ip.repo(f"{CH}::EpochChainManager"), [], {"apply_thinning": flag})
         th = c.fresh("th", Int)
         cfgs = [ip.call(EC, [3, 6, th, None], {}), ip.call(EC, [4, 6, 2, None], {}), ip.call(EC, [4, 6, 2, None], {})]  # the last two are EQUAL by value
+        cfgs.append(cfgs[-1])  # ... and the SAME configuration object used for two consecutive epochs ([slow] * 3 in a schedule)
         del appended[:]
         for j, cfg in enumerate(cfgs):
             ip.call(method(ip, mgr, "advance_epoch"), [cfg], {})
@@ -127,9 +128,11 @@ def u_manager_advance(ip):
             c.oblige(f"current_chain_is_for_this_epoch.flag_{flag}.{j}", ip.getattr(cur, "epoch") is cfg and ip.truth(cur.f["_apply_thinning"]) is flag)
             c.oblige(f"append_goes_to_the_current_chain_only.flag_{flag}.{j}", len(appended) == j + 1 and appended[j][0] is cur and appended[j][1] is chunk)
         eps = ip.call(method(ip, mgr, "get_epochs"), [], {})
-        c.oblige(f"epochs_reported_in_opening_order.flag_{flag}", len(eps) == 3 and all(eps[j] is cfgs[j] for j in range(3)))
-        chains = [ip.call(method(ip, mgr, "get_specific_chain"), [j], {}) for j in range(3)]
-        c.oblige(f"one_distinct_chain_per_epoch.flag_{flag}", len({id(x) for x in chains}) == 3 and all(ip.getattr(chains[j], "epoch") is cfgs[j] for j in range(3)))
+        n_ = len(cfgs)
+        c.oblige(f"epochs_reported_in_opening_order.flag_{flag}", len(eps) == n_ and all(eps[j] is cfgs[j] for j in range(n_)))
+        kinds = [try_call(ip, method(ip, mgr, "get_specific_chain"), [j], {}) for j in range(n_)]
+        chains = [r_ for k_, r_ in kinds if k_ == "ok"]
+        c.oblige(f"one_distinct_chain_per_epoch.flag_{flag}", len(chains) == n_ and len({id(x) for x in chains}) == n_ and all(ip.getattr(chains[j], "epoch") is cfgs[j] for j in range(n_)))
 
 
 def combine_unit(n):
@@ -299,3 +302,41 @@ from contracts.c10 import build_whole_unit  # noqa: E402
 
 build_whole_unit("C08.build_end_to_end", "C08", "A")
 build_whole_unit("C08.build_end_to_end.variant_b", "C08", "B")
+
+
+def list_chain_long_unit(uid, prop):
+    @unit(uid, prop, [f"{CH}::ListChain.__init__", f"{CH}::ListChain.append", f"{CH}::ListChain.get", f"{CH}::ListChain._concatenate"],
+          assumptions=["T: concatenate_leaves(chunks, axis=1) joins the chunks in list order (checked natively)", "histories of 1, 2, 3, 100, 101, 102, 205 and 330 appended chunks, "
+                       "with and without a get() after every 50th append"])
+    def u(ip):
+        """a chain hands back every chunk that was appended, once, in the order of appending - however many there are, and whether or not the
+        chunks were combined in between."""
+        c = ip.ctx
+
+        def flat(x):
+            return list(x.attrs["parts"]) if isinstance(x, PyObj) and x.name == "cat" else [x]
+
+        def cat(ip_, args, kwargs):
+            xs = list(ip_.iterate(args[0]))
+            if not xs:
+                return None
+            return PyObj("cat", parts=[p for x in xs for p in flat(x)])
+
+        ip.summaries["liesel/goose/pytree.py::concatenate_leaves"] = cat
+        LC = ip.repo(f"{CH}::ListChain")
+        for n in (1, 2, 3, 100, 101, 102, 205, 330):
+            for peek in (False, True):
+                ch = ip.call(LC, [], {})
+                chunks = [PyObj(f"chunk{i}") for i in range(n)]
+                for i, ck in enumerate(chunks):
+                    ip.call(method(ip, ch, "append"), [ck], {})
+                    if peek and i % 50 == 49:
+                        ip.call(method(ip, ch, "get"), [], {})
+                opt = ip.call(method(ip, ch, "get"), [], {})
+                val = opt.f.get("_value") if isinstance(opt, Obj) else None
+                got = flat(val) if val is not None else []
+                c.oblige(f"every_appended_chunk_once_in_order.n{n}" + (".combined_in_between" if peek else ""), len(got) == n and all(a is b for a, b in zip(got, chunks)))
+    return u
+
+
+list_chain_long_unit("C08.chain_keeps_every_appended_chunk", "C08")
